@@ -178,6 +178,20 @@ def gen_default(tier, seed):
                                    "types": types, "qrange": qrange, "onlypositive": op, "mode": "default", "csv": False}
 
 
+def gen_default_empty(tier, seed):
+    """numerical regime: int(2 qrange / min(2 pi / L)) is 0 or 1, so the documented integer range [-int(N/2), int(N/2)) holds no vector and
+    the table must have no row (and N = 2, the smallest non-empty case, next to it)"""
+    for d in (3, 2):
+        for box in ("uneq", "cube"):
+            L = BOX[d][box]
+            pts = generic(seed, 6, L, f"sqE{d}{box}")
+            for qrange in (0.1, 0.3, 0.4, 0.6):
+                for op in (False, True):
+                    for types in ([1] * 6, [1, 2, 1, 2, 2, 2], [1, 2, 3, 1, 2, 3]):
+                        yield {"slice": "default", "d": d, "box": box, "L": L, "frames": frames_for(seed, pts, 1, f"sqE{d}{box}"),
+                               "types": types, "qrange": qrange, "onlypositive": op, "mode": "default", "csv": False, "empty_ok": True}
+
+
 def gen_choose(tier, seed):
     for d in (2, 3):
         top = (24 if tier == "thorough" else 16) if d == 2 else (16 if tier == "thorough" else 11)
@@ -634,6 +648,18 @@ def _run(case):
         qint = [list(v) for v in default_qset_ref(L, case["qrange"], case["onlypositive"])]
         sig["onlypositive"] = str(case["onlypositive"])
     if not qint:
+        if case["mode"] == "default" and case.get("empty_ok"):
+            # the documented range is empty (int(2 qrange / min(2 pi / L)) < 2): the default set has no vector and the table no row
+            from PyMatterSim.static.sq import sq as _sq
+            snaps0 = mk_snaps([np.array(f, float) for f in frames], np.diag(L), np.array(types))
+            res0 = _sq(snaps0, qrange=case["qrange"], onlypositive=case["onlypositive"]).getresults()
+            n0 = 0 if res0 is None else len(res0)
+            if n0 != 0:
+                R.fail(f"documented default wave-vector set is empty (qrange {case['qrange']}, box {L}) but the table has {n0} rows",
+                       sig=dict(sig, clause="default_qset", empty=True), sub="C04.default_qset", exp=0, obs=n0)
+            R.outcome({"rows": n0}, nd=6)
+            R.nontrivial = True
+            return R
         # an empty wave-vector set is not a meaningful request; nothing to decide
         return R.screen()
     tsrc = case.get("types_frames") or types
@@ -812,7 +838,7 @@ def subs(tier, seed):
                  + "} x frames {1,2,3} x type vectors (cyclic and skewed, K=1..min(N,6)) x six explicit wave-vector lists "
                  "(symmetric triple, full first shell, single vector, duplicate vector, Pythagorean shell, negative components)",
             bounds={"qlists": len(QL3), "frames": [1, 2, 3]}),
-        Sub("C04.default_qset", gen_default, run,
+        Sub("C04.default_qset", lambda t, s_: itertools.chain(gen_default(t, s_), gen_default_empty(t, s_)), run,
             rule="qrange {2,3,5} x boxes {Lx=Ly, unequal (z longest), cubic, unequal (x longest)} x {2D,3D} x onlypositive {False,True,'x','y','z'(3D)} x "
                  "compositions x frames; the set used (df_qvector) must equal the independent enumeration and the returned frame "
                  "must equal the reference evaluated on the independently enumerated set",
